@@ -81,3 +81,23 @@ Proof.
   unfold gen_Token_display. rewrite gen_decoded_eq. cbn [Token_inner]. unfold decoded.
   destruct (decoded_cow (cow_text (Token_inner t))) as [al tx]. cbn [snd]. destruct al; reflexivity.
 Qed.
+
+(* ---- PointerBuf::parse: the parser, and on failure a report that keeps the error AND the original string ------------------ *)
+Theorem gen_bufparse_eq (s : str) :
+  gen_PointerBuf_parse s =
+  match gen_validate s with
+  | Ret (Ok _) => Ret (Ok s)
+  | Ret (Err e) => Ret (Err (mk_RichParseError e s))
+  | Panic => Panic
+  | OutOfFuel => OutOfFuel
+  end.
+Proof. unfold gen_PointerBuf_parse. destruct (gen_validate s) as [[t|e]| |]; reflexivity. Qed.
+
+Theorem gen_bufparse_report (s : str) :
+  (valid_ptr s = true -> gen_PointerBuf_parse s = Ret (Ok s)) /\
+  (valid_ptr s = false -> exists e, gen_validate s = Ret (Err e) /\ gen_PointerBuf_parse s = Ret (Err (mk_RichParseError e s))).
+Proof.
+  rewrite gen_bufparse_eq. destruct (validate_cases s) as [[H Hv]|(e & H & Hv)]; rewrite H, Hv; split; intros A; try discriminate.
+  - reflexivity.
+  - exists e. split; reflexivity.
+Qed.
